@@ -74,6 +74,43 @@ def _one_mutant(args):
         shutil.rmtree(d, ignore_errors=True)
 
 
+def _one_refactor(args):
+    prop, src_root, base, spec = args
+    d = tempfile.mkdtemp(prefix="r_", dir=base)
+    try:
+        _copy_pkg(src_root, d)
+        if spec == "REFORMAT":
+            import glob
+            for p in glob.glob(os.path.join(d, "graphtage", "*.py")):
+                with open(p, encoding="utf-8") as f:
+                    src = f.read()
+                with open(p, "w", encoding="utf-8") as f:
+                    f.write(ast.unparse(ast.parse(src)) + "\n")
+            desc = "whole package re-emitted through ast.unparse (full reformat, comments dropped)"
+        else:
+            fname, edits, desc, props = spec
+            p = os.path.join(d, "graphtage", fname)
+            with open(p, encoding="utf-8") as f:
+                s = f.read()
+            for old, new in edits:
+                if s.count(old) != 1:
+                    return ("skipped", desc, "anchor moved")
+                s = s.replace(old, new)
+            compile(s, p, "exec")
+            with open(p, "w", encoding="utf-8") as f:
+                f.write(s)
+        viol, inc, floors = _run_rules(prop, d)
+        if viol:
+            return ("false-alarm", desc, f"{viol[0][0]}: {viol[0][2][:140]}")
+        if inc or floors:
+            return ("inconclusive", desc, str((inc or floors)[0])[:140])
+        return ("silent", desc, "")
+    except BaseException as e:   # noqa
+        return ("error", str(spec)[:60], f"{type(e).__name__}: {e}")
+    finally:
+        shutil.rmtree(d, ignore_errors=True)
+
+
 def seeded_for(prop):
     """Kept seeded changes whose meta says this property's check catches them."""
     out = []
@@ -197,6 +234,24 @@ def extend(ctx):
                 ctx.inconclusive("SELFTEST", "-", "self-validation", None, f"{job[3]}:{desc}"[:80],
                                  f"seeded {'mutant' if job[3] == 'text' else 'change'} `{desc}` (expected rule {rule}) was not "
                                  f"reported: {detail} - the checker is broken, not graphtage")
+        # behaviour-preserving refactors must not raise an alarm
+        from . import refactors
+        rjobs = [(prop, src_root, base, "REFORMAT")] + [(prop, src_root, base, r) for r in refactors.REFACTORS if prop in r[3]]
+        with cf.ProcessPoolExecutor(max_workers=min(16, len(rjobs))) as ex:
+            rres = list(ex.map(_one_refactor, rjobs))
+        summary["refactors"] = [{"what": d_, "status": st, "detail": det} for st, d_, det in rres]
+        silent = sum(1 for st, _, _ in rres if st == "silent")
+        for st, d_, det in rres:
+            if st in ("false-alarm", "error"):
+                ctx.inconclusive("SELFTEST", "-", "self-validation", None, f"refactor:{d_}"[:80],
+                                 f"behaviour-preserving refactor `{d_}` made the check report {det} - a false alarm of the checker")
+        ctx.rule("REFACTOR", f"silence under behaviour-preserving refactors: {silent} of {len(rres)} silent (full ast.unparse "
+                             f"reformat of the package + renames / reorderings / extractions in the code this property reads)")
+        if silent:
+            ctx.proved("REFACTOR", "-", "self-validation", None, f"{prop} refactor silence",
+                       f"{silent} of {len(rres)} behaviour-preserving rewrites leave the verdict unchanged "
+                       f"({sum(1 for st, _, _ in rres if st == 'inconclusive')} inconclusive, "
+                       f"{sum(1 for st, _, _ in rres if st == 'skipped')} skipped)")
         # clean scratch copy must reproduce the verdict of the tree under analysis
         d = tempfile.mkdtemp(prefix="clean_", dir=base)
         _copy_pkg(src_root, d)
